@@ -105,6 +105,47 @@ def run(ctx: Ctx) -> None:
             why = f"{len(lines)} lines vs {len(base_keys)}" if len(keys) != len(base_keys) else (f"line {diffs[0][0]}: {SStr(diffs[0][2]).describe()!r} vs default {SStr(diffs[0][1]).describe()!r}" if diffs else f"keyword glued to its value: {glued[:2]}")
             ctx.check(good, "O2", f"{rname} | {sname}", locf, f"{len(lines)} lines, content identical", f"option setting '{sname}' changes content: {why}")
 
+    # ---- O5 ------------------------------------------------------------------------------------------
+    ctx.rule("O5", "pprint() writes the lines of _format separated by newlinechar and nothing else: the option value is placed between lines only, so a line break inside a quoted value is written as it is under every newlinechar", 3)
+    locp = repo.loc("pprint", repo.func("pprint.PrettyPrinter.pprint"))
+    nonl = frozenset("\n\r\"'")
+
+    def multi():
+        v = SStr([Atom("l1", nonempty=True, excludes=nonl, free=True), "\n", Atom("l2", nonempty=True, excludes=nonl, free=True)])
+        return cd([("__type__", "layer"), ("name", W("n")), ("data", v), ("metadata", cd([("__type__", "metadata"), ("akey", SStr(list(v.pieces)))]))])
+
+    for nl in ("\n", "\r\n", " "):
+        o = lambda nl=nl: L.sym_options(end_comment=False, indent=2, spacer=" ", newlinechar=nl)
+        lines = L.format_lines(multi, o, level=0, fork=False)
+        text = L.pprint_text(multi, o, fork=False)
+        if len(lines) != 1 or lines[0][1] != "return" or len(text) != 1:
+            raise AnalysisError(f"pprint / _format not evaluable under newlinechar {nl!r}")
+        if text[0][1] != "return":
+            ctx.finding("O5", f"newlinechar {nl!r}", locp, f"pprint raises {text[0][2]} under this newlinechar")
+            continue
+        want = []
+        for i, ln in enumerate(lines[0][2]):
+            if i:
+                want.append(nl)
+            want += list(pai.as_sstr(ln).pieces)
+        got = pai.as_sstr(text[0][2])
+
+        def inner(t):
+            ps = list(t.pieces)
+            return [ps[i + 1] for i in range(len(ps) - 2) if isinstance(ps[i], Atom) and ps[i].name == "l1" and isinstance(ps[i + 2], Atom) and ps[i + 2].name == "l2"]
+
+        def collapsed(t):
+            ps = [re.sub(r"[ \t\r\n]+", " ", p_) if isinstance(p_, str) else p_ for p_ in t.pieces]
+            if ps and isinstance(ps[0], str):
+                ps[0] = ps[0].lstrip(" ")
+            if ps and isinstance(ps[-1], str):
+                ps[-1] = ps[-1].rstrip(" ")
+            return SStr([p_ for p_ in ps if p_ != ""])
+
+        intact = inner(got) == ["\n", "\n"]
+        same = collapsed(got) == collapsed(SStr(want))
+        ctx.check(intact and same, "O5", f"newlinechar {nl!r}", locp, f"{len(lines[0][2])} lines joined; embedded line breaks intact", f"with newlinechar {nl!r} the text is not the formatted lines separated by it: {got.describe()!r} instead of {SStr(want).describe()!r}" + ("" if intact else " (the line break inside the quoted values is rewritten, so the value read back differs)"))
+
     # ---- O4 ------------------------------------------------------------------------------------------
     ctx.rule("O4", "with align_values every keyword of every type, printed as the only (hence longest) keyword of its block, is separated from its value by at least one space, for indent 0, 1, 2, 4, 7", 250)
     from .. import printer as _printer
